@@ -43,7 +43,7 @@ func genC14(t *rapid.T) RoutingCase {
 		}
 		c.Reqs = append(c.Reqs, r)
 	}
-	if !tableHasMuxConflict(c.Table) && rapid.Bool().Draw(t, "viaServe") {
+	if rapid.Bool().Draw(t, "viaServe") { // roots may share their fixed prefix: the container registers each mux pattern once
 		c.Via = harness.ViaServe
 	}
 	if withOptionsFilter {
@@ -73,7 +73,22 @@ func checkC14(c RoutingCase) (vs []*Violation) {
 		a := harness.Do(ct, rec, req, c.Via, strconv.Itoa(i)+"a")
 		b := harness.Do(ct, rec, slash, c.Via, strconv.Itoa(i)+"b")
 		if c.Via == harness.ViaServe && ((a.Status/100 == 3 && len(a.Ran) == 0) || (b.Status/100 == 3 && len(b.Ran) == 0)) {
-			// a redirect produced by net/http's ServeMux is not a framework decision
+			// a redirect produced by net/http's ServeMux is not a framework decision - unless the
+			// path is the fixed part of a WebService's own root path, for which the container
+			// registers both the path and the path plus slash (as long as no WebService mapped on
+			// "/" was added before it)
+			own := false
+			for _, s := range c.Table.Services {
+				if p := gen.MuxPattern(s.Root); p == "/" || p == "" {
+					break // from here on everything is served through the pattern "/": nothing more is registered
+				}
+				if gen.MuxPattern(s.Root) == req.Path {
+					own = true
+				}
+			}
+			if own {
+				vs = append(vs, viol("", "%s router, via ServeHTTP: %s %q is the fixed part of a WebService root, yet it is answered %d and %q is answered %d (a redirect by net/http's mux: the pattern is not registered)", c.Router, req.Method, req.Path, a.Status, slash.Path, b.Status))
+			}
 			labels = append(labels, "skipped_mux_redirect")
 			continue
 		}
